@@ -684,6 +684,10 @@ fn boxed_programs() -> Vec<(&'static str, String)> {
     for (name, decl, body) in shapes {
         v.push((name, format!("{decl}\nfn dsp() -> float {{\n {body}\n 1.0\n}}\n")));
     }
+    // closures that are still open when their frame returns -- through Return (value) and through Return0 (unit frame)
+    v.push(("open closure in a value-returning frame", "fn scale(k){\n    (|y| { y*k })(4.0)\n}\nfn dsp() -> float {\n    scale(2.0)\n}\n".to_string()));
+    v.push(("open closure applied in a unit-returning frame", "let acc = 0.0\nfn bump(k){\n    (|y| { acc = acc + y*k })(1.0)\n}\nfn dsp() -> float {\n    bump(2.0)\n    acc\n}\n".to_string()));
+    v.push(("open closure piped in a unit-returning frame", "let acc = 0.0\nfn store(v){\n    acc = v\n}\nfn work(k){\n    store(3.0 |> |v| {v*k})\n}\nfn dsp() -> float {\n    work(2.0)\n    acc\n}\n".to_string()));
     // aggregates released at let-scope end whose counted members sit at different positions (the type-directed release
     // has to address the member it releases): records sort their fields by name
     let l = "type rec List = Nil | Cons(float, List)\n";
@@ -795,7 +799,7 @@ fn main() {
                 return;
             }
             if bad {
-                println!("FOUND index={i} value={name:?} clause=release_usersum_recursive/clone_usersum_recursive: live heap objects after 64 / 128 samples = {r:?} (must be equal)");
+                println!("FOUND index={i} value={name:?} clause=C12[live heap objects are the same after sample N and 2N] live heap objects after 64 / 128 samples = {r:?} (must be equal)");
                 return;
             }
         }
